@@ -568,6 +568,12 @@ def esl_sxp_invcdf (fuel : Nat) (p mu lambda tau : α) : Option α :=
   let x2 := (mu + 1.0)
   esl_sxp_invcdf_loop1 fuel p mu lambda tau tol x1 x2 fuel
 
+/-- `esl_sxp_Sample` (esl_stretchexp.c:304); `u` = the variate `esl_rnd_Gamma(r, …)` yields -/
+def esl_sxp_Sample (u mu lambda tau : α) : α :=
+  let t := u
+  let x := (mu + ((1.0 / lambda) * (Num.exp ((1.0 / tau) * (Num.log t)))))
+  x
+
 /-- `esl_sxp_generic_pdf` (esl_stretchexp.c:215) -/
 def esl_sxp_generic_pdf (x : α) (params : List α) : α :=
   let p := params
@@ -796,6 +802,11 @@ def esl_lognormal_logpdf (x mu sigma : α) : α :=
     let z := (((Num.log x) - mu) / sigma)
     (((-(Num.log (x * sigma))) - (0.5 * (Num.log (2.0 * 3.14159265358979323846264338328)))) - ((0.5 * z) * z))
 
+/-- `esl_lognormal_Sample` (esl_lognormal.c:55); `u` = the variate `esl_rnd_Gaussian(r, …)` yields -/
+def esl_lognormal_Sample (u mu sigma : α) : α :=
+  let u_ := u
+  (Num.exp (mu + (sigma * u_)))
+
 /-- `esl_vec_DMax` (esl_vectorops.c:289) -/
 def esl_vec_DMax (vec : List α) (n : Nat) : α :=
   let best := (vec.getD 0 0.0)
@@ -962,6 +973,10 @@ def esl_hxp_invcdf (fuel : Nat) (p : α) (h : ESL_HYPEREXP α) : Option α :=
   let x2 := (h.mu + 1.0)
   esl_hxp_invcdf_loop1 fuel p h tol x1 x2 fuel
 
+/-- `esl_hxp_Sample` (esl_hyperexp.c:516); `k` = the component `esl_rnd_DChoose(r, …)` yields -/
+def esl_hxp_Sample (u : α) (h : ESL_HYPEREXP α) (k : Nat) : α :=
+  (esl_exp_Sample u h.mu (h.lambda.getD k 0.0))
+
 /-- `esl_hxp_generic_pdf` (esl_hyperexp.c:429) -/
 def esl_hxp_generic_pdf (x : α) (params : ESL_HYPEREXP α) : α :=
   let h := params
@@ -1100,6 +1115,10 @@ def esl_mixgev_invcdf (fuel : Nat) (p : α) (mg : ESL_MIXGEV α) : Option α :=
   let x1 := (x2 - 1.0)
   esl_mixgev_invcdf_loop1 fuel p mg tol x2 x1 fuel
 
+/-- `esl_mixgev_Sample` (esl_mixgev.c:434); `k` = the component `esl_rnd_DChoose(r, …)` yields -/
+def esl_mixgev_Sample (u : α) (mg : ESL_MIXGEV α) (k : Nat) : α :=
+  (esl_gev_Sample u (mg.mu.getD k 0.0) (mg.lambda.getD k 0.0) (mg.alpha.getD k 0.0))
+
 /-- `esl_mixgev_generic_pdf` (esl_mixgev.c:346) -/
 def esl_mixgev_generic_pdf (x : α) (params : ESL_MIXGEV α) : α :=
   let mg := params
@@ -1163,6 +1182,7 @@ def dispatch (name : String) (a : List α) : Option α :=
   | "esl_sxp_logcdf", [x0, x1, x2, x3] => some (esl_sxp_logcdf x0 x1 x2 x3)
   | "esl_sxp_surv", [x0, x1, x2, x3] => some (esl_sxp_surv x0 x1 x2 x3)
   | "esl_sxp_logsurv", [x0, x1, x2, x3] => some (esl_sxp_logsurv x0 x1 x2 x3)
+  | "esl_sxp_Sample", [x0, x1, x2, x3] => some (esl_sxp_Sample x0 x1 x2 x3)
   | "esl_gam_pdf", [x0, x1, x2, x3] => some (esl_gam_pdf x0 x1 x2 x3)
   | "esl_gam_logpdf", [x0, x1, x2, x3] => some (esl_gam_logpdf x0 x1 x2 x3)
   | "esl_gam_cdf", [x0, x1, x2, x3] => some (esl_gam_cdf x0 x1 x2 x3)
@@ -1175,6 +1195,7 @@ def dispatch (name : String) (a : List α) : Option α :=
   | "esl_normal_surv", [x0, x1, x2] => some (esl_normal_surv x0 x1 x2)
   | "esl_lognormal_pdf", [x0, x1, x2] => some (esl_lognormal_pdf x0 x1 x2)
   | "esl_lognormal_logpdf", [x0, x1, x2] => some (esl_lognormal_logpdf x0 x1 x2)
+  | "esl_lognormal_Sample", [x0, x1, x2] => some (esl_lognormal_Sample x0 x1 x2)
   | _, _ => none
 
 /-- name → translated loop-containing function (`some none` = fuel exhausted) and the generic-API wrappers
